@@ -353,6 +353,8 @@ def churn(kind, k):
         "broadcast": '        let a: array<string> = [(int_to_string i), "x"]\n        let c: array<string> = (+ a (int_to_string (* i 3)))\n        let d: array<int> = (* [i, 2] 3)\n        set n (+ n (+ (array_length c) (at d 1)))\n',
         "slices": '        let a: array<string> = [(int_to_string i), "k", (+ "z" (int_to_string i))]\n        let b: array<string> = (array_slice a 1 2)\n        set n (+ n (array_length b))\n',
         "poppush": '        let a: array<string> = [(int_to_string i), "q"]\n        let mut b: array<string> = []\n        set b (array_push b (at a 0))\n        let last: string = (array_pop b)\n        set n (+ n (str_length last))\n',
+        # values passed to calls that leave the VM (builtins implemented as externs): the call consumes the argument
+        "externs": '        let s: string = (+ "abc" (int_to_string i))\n        set n (+ n (bstr_utf8_length s))\n        let t: string = (+ "x" (int_to_string (* i 7)))\n        if (bstr_validate_utf8 t) {\n            set n (+ n 1)\n        }\n',
         # function values held in an array: every fetched copy dies at the end of the iteration, the table lives on
         "fntable": "        let f: fn(int) -> int = (at table (% i 2))\n        set n (f n)\n        let g: fn(int) -> int = (at table 1)\n        set n (- (g n) 1)\n",
         "fntablelocal": "        let t: array<fn(int) -> int> = [inc, inc, inc]\n        let f: fn(int) -> int = (at t (% i 3))\n        set n (f n)\n",
@@ -364,4 +366,4 @@ def churn(kind, k):
             "    while (< i %d) {\n%s        set i (+ i 1)\n    }\n    (println n)\n    return 0\n}\nshadow main { assert (== 1 1) }\n" % (k, body))
 
 
-CHURN_KINDS = ["strings", "arrays", "structs", "nested", "calls", "remove", "tuples", "concat", "arrayadd", "broadcast", "slices", "poppush", "fntable", "fntablelocal"]
+CHURN_KINDS = ["strings", "arrays", "structs", "nested", "calls", "remove", "tuples", "concat", "arrayadd", "broadcast", "slices", "poppush", "fntable", "fntablelocal", "externs"]
